@@ -13,7 +13,6 @@ ROLE = {
     "share_base": "txtpp::fs::path::abs_path::AbsPath::share_base",
     "create_base": "txtpp::fs::path::abs_path::AbsPath::create_base",
     "make_abs": "txtpp::fs::path::abs_path::AbsPath::make_abs",
-    "create_file": "txtpp::fs::path::abs_path::create_file",
     "abs_parent": "txtpp::fs::path::abs_path::AbsPath::parent",
     "ioctx_new": "txtpp::fs::io_context::IOCtx::new",
     "ctxout_new": "txtpp::fs::io_context::CtxOut::new",
@@ -276,8 +275,21 @@ def bool_call_edges(body, prog, names, value, arg_pred=None):
 def enum_edges(body, prog, adt, variants_pred, src_pred=None):
     """edges on which a value of enum `adt` is known to be in a variant set satisfying variants_pred:
     switches on the discriminant, and `x == Adt::V` / `x != Adt::V` tests (derived PartialEq)"""
+    QMARK = {"std::option::Option": ("<std::option::Option<T> as std::ops::Try>::branch", {"Continue": "Some", "Break": "None"}),
+             "std::result::Result": ("<std::result::Result<T, E> as std::ops::Try>::branch", {"Continue": "Ok", "Break": "Err"})}
+
     def pred(c, vs, leaf):
-        if c.kind != "enum" or c.adt != adt:
+        if c.kind != "enum":
+            return False
+        if c.adt == "std::ops::ControlFlow" and adt in QMARK and c.place is not None and not c.place["p"]:
+            # `x?`: the switch is on Try::branch(x); Continue is x's success variant, Break its failure variant
+            ds = [r for r in body.defs().get(c.place["l"], []) if r[0] == "call"]
+            if len(ds) == 1 and QMARK[adt][0] in C.callee_names(ds[0][2]):
+                if src_pred and not src_pred(c):
+                    return False
+                return variants_pred({QMARK[adt][1].get(v, v) for v in vs})
+            return False
+        if c.adt != adt:
             return False
         if src_pred and not src_pred(c):
             return False
@@ -366,7 +378,8 @@ def try_ok_edges(body, prog, of_call_names, through_decorators=True):
         c = C.switch_cond(body, bb)
         if c.kind != "enum" or c.adt not in ("std::ops::ControlFlow", "std::result::Result", "std::option::Option"):
             continue
-        src = C.trace(body, c.place, through_try=True, through_decorators=through_decorators)
+        src = C.trace(body, c.place, through_try=True, through_decorators=through_decorators,
+                      transparent=lambda t: C.is_transparent(t) and not any(n in of_call_names for n in C.callee_names(t)))
         if not any(leaf_is_call(l, of_call_names) for l in src):
             continue
         for eid, succ, vs in C.edge_variants(body, bb, c, prog):
@@ -408,6 +421,18 @@ def has_field(leaves, name):
             for (o, v, n) in C.pl_fields(l.data):
                 if n == name:
                     return True
+    return False
+
+
+EMPTY_STRING_CALLS = ("std::string::String::new", "<std::string::String as std::default::Default>::default")
+
+
+def is_empty_text(l):
+    """a leaf that is the empty string whichever way it is spelled: "" / String::new() / String::default()"""
+    if l.kind == "const":
+        return (C.op_const(l.data) or "") == '""'
+    if l.kind == "call":
+        return C.callee_name(l.data) in EMPTY_STRING_CALLS
     return False
 
 
